@@ -50,7 +50,7 @@ var ctlPaths = []string{"/", "/v1", "/v1/schemas", "/v1/volumes", "/v1/volumes/V
 
 // bodies: index -> generator
 func fuzzBody(k int, rng func(string) uint64, addr string) (string, string) {
-	switch k % 14 {
+	switch k % 18 {
 	case 0:
 		return "", "empty"
 	case 1:
@@ -78,6 +78,17 @@ func fuzzBody(k int, rng func(string) uint64, addr string) (string, string) {
 		return `{"name":"fz","created":"2020-01-01T00:00:00Z","usercreated":true,"rebuilding":true,"mode":"RW","counter":"9","snapshotName":"volume-snap-fz.img","Action":"start","snapname":"fz","revisioncounter":"3"}`, "mixed-valid"
 	case 12:
 		return "\x00\xff\xfe garbage \x01", "binary"
+	case 14:
+		// well-typed fields with malformed VALUES: an address without a port, ...
+		return `{"address":"tcp://10.0.0.77","mode":"RW","name":"","size":"-4096","snapshotName":"","snapname":"../x","counter":"-1"}`, "address-without-port"
+	case 15:
+		// ... without a scheme, a name with a path in it, a size that is no number, ...
+		return `{"address":"10.0.0.77:9502","mode":"rw","name":"a/b","size":"12x","snapshotName":"volume-head-000.img","snapname":"volume-snap-.img","counter":"1e3"}`, "address-without-scheme"
+	case 16:
+		// ... an empty address, huge numbers
+		return `{"address":"","mode":"","name":"` + strings.Repeat("n", 300) + `","size":"99999999999999999999","revisioncounter":"99999999999999999999","counter":"9223372036854775807"}`, "empty-address-huge-numbers"
+	case 17:
+		return `{"address":"tcp://10.0.0.77:notaport","mode":"WO","name":"volume-snap-fz.img","size":"0","replicas":["tcp://10.0.0.77","",":"]}`, "address-bad-port"
 	default:
 		return `[1,2,3]`, "array"
 	}
@@ -97,7 +108,7 @@ func (apifuzz) Generate(rng *Rand, prop, tier string) *Script {
 				s.Ops = append(s.Ops, Op{K: "state", A: int64(rng.Intn(9))})
 				continue
 			}
-			op := Op{K: "req", A: int64(rng.Intn(len(fuzzMethods))), B: int64(rng.Intn(len(repPaths))), C: int64(rng.Intn(len(repActions) + 4)), D: int64(rng.Intn(14))}
+			op := Op{K: "req", A: int64(rng.Intn(len(fuzzMethods))), B: int64(rng.Intn(len(repPaths))), C: int64(rng.Intn(len(repActions) + 4)), D: int64(rng.Intn(18))}
 			if rng.Bool(60) {
 				op.A, op.B = 1, 8 // POST /v1/replicas/1?action=...
 			}
@@ -138,11 +149,18 @@ func (apifuzz) Generate(rng *Rand, prop, tier string) *Script {
 		switch x := rng.Intn(100); {
 		case x < 10:
 			s.Ops = append(s.Ops, Op{K: "cstate", A: int64(rng.Intn(4)), B: int64(rng.Intn(3))})
+		case x < 16 && s.Cfg["rf"] >= 2:
+			// a replica is restarted and its rebuild held for half a simulated minute: the requests that follow meet
+			// a controller with a WO (rebuilding) replica attached
+			s.Ops = append(s.Ops, Op{K: "cstate", A: 4, B: int64(rng.Intn(3))})
 		default:
-			op := Op{K: "req", A: int64(rng.Intn(len(fuzzMethods))), B: int64(rng.Intn(len(ctlPaths))), C: int64(rng.Intn(len(ctlActions) + 3)), D: int64(rng.Intn(14)), S: fmt.Sprint(rng.Intn(3))}
+			op := Op{K: "req", A: int64(rng.Intn(len(fuzzMethods))), B: int64(rng.Intn(len(ctlPaths))), C: int64(rng.Intn(len(ctlActions) + 3)), D: int64(rng.Intn(18)), S: fmt.Sprint(rng.Intn(3))}
 			if rng.Bool(50) {
 				op.A = 1
 				op.B = []int64{4, 9}[rng.Intn(2)]
+			} else if rng.Bool(20) {
+				op.A = 1
+				op.B = []int64{8, 12, 13}[rng.Intn(3)] // POST /v1/replicas, /v1/register, /v1/quorumreplicas
 			}
 			if rng.Bool(10) {
 				op.A, op.B, op.C = 3, 4, 6 // DELETE /v1/volumes/VOL?action=deleteSnapshot
@@ -496,6 +514,24 @@ func (fr *fzRun) runController() {
 				w.Pump(nil, w.Now()+30*time.Second, c.reapExited)
 			case 3:
 				w.Pump(allRW, w.Now()+120*time.Second, c.reapExited)
+			case 4:
+				if rn.up {
+					rn.scripted = true
+					c.killReplica(rn, "script")
+					w.Pump(nil, w.Now()+15*time.Second, c.reapExited)
+				}
+				held := rn.name
+				c.hookFn = func(g *simrt.G, hook string, args ...interface{}) {
+					if g != nil && g.Node != nil && g.Node.Name == held && hook == "PanicAfterPrepareRebuild" {
+						fr.res.stat("rebuild_held", 1)
+						simrt.Sleep(30 * time.Second)
+					}
+				}
+				c.startReplica(rn)
+				hasWO := func() bool { return c.ctrl != nil && countMode(c.ctrl.ListReplicas(), types.WO) > 0 }
+				if w.Pump(hasWO, w.Now()+60*time.Second, c.reapExited) {
+					fr.res.stat("requests_meet_rebuilding_replica", 1)
+				}
 			}
 			fr.shape = append(fr.shape, fmt.Sprintf("cstate%d", op.A))
 		case "req":
